@@ -40,14 +40,14 @@ let str_log l = if l = [] then "-" else String.concat " " (List.map str_event l)
 (* SHUT <t> <s> <abs0> <phase>            -> closed=<ms|never> handler=<none|done@ms|cancel@ms|stuck>
    LATE <t> <s> <abs0> <phase> <delta>    -> 0|1
    RET  <t> <s> <abs0> <phase> ...        -> <ms>|never
-   phase: idle | h<ms> | hinf | u<ms> | uinf ; all times in integral milliseconds *)
+   phase: idle | h<ms> | hinf | u<ms> | uinf | r<ms> ; all times in integral milliseconds *)
 let zi s = z_of_int (int_of_string s)
 let phase_of_string s =
   if s = "idle" then PIdle
   else if s = "hinf" then PHandling None
   else if s = "uinf" then PUpload None
   else let v = zi (String.sub s 1 (String.length s - 1)) in
-    (match s.[0] with 'h' -> PHandling (Some v) | 'u' -> PUpload (Some v) | _ -> failwith ("bad phase " ^ s))
+    (match s.[0] with 'h' -> PHandling (Some v) | 'u' -> PUpload (Some v) | 'r' -> PReadLater v | _ -> failwith ("bad phase " ^ s))
 let cfg_of t s a = { t_ms = zi t; s_ms = zi s; abs0 = zi a }
 let zs z = string_of_int (int_of_z z)
 let str_outcome o =
